@@ -3,6 +3,8 @@ import asyncio
 
 import random
 
+from haiway import ctx
+
 from harness.legs import cfg_text, gen_traces, leg_m, leg_mutant, leg_r, leg_t_gen
 from harness.vloop import VClock, VLoop
 
@@ -21,7 +23,7 @@ MANIFEST = dict(
 INVS = ["TypeOK", "OneEntryPerKey", "NeverCancelsInvocation", "Delivers", "RightKey"]
 PROPS = ["SingleFlight", "OnlyTheCancelledSeeCancel"]
 T0 = 1000.0
-ARGS = {1: ((1,), {}), 2: ((1.0,), {}), 3: ((True,), {})}
+ARGS = {1: ((-1,), {}), 2: ((-1.0,), {}), 3: ((-2,), {})}     # ==-equal of different types; unequal with equal hashes
 
 
 class Val:
@@ -56,7 +58,7 @@ class FlightDriver:
         self.method = method      # the cached coroutine function is a method of a holder instance
 
     def reset(self, init):
-        from haiway import cache
+        from haiway import cache, ctx
         limit, expn = init["limit"], init["expn"]
         self.nc = len(init["cl"])
         self.loop = loop = VLoop(start=T0)
@@ -106,7 +108,10 @@ class FlightDriver:
         rec = self.cl[c]
         args, kwargs = ARGS[key]
         try:
-            got = ("val", await self.fn(*args, **kwargs))
+            # every caller calls from inside its own scope (as application code does): the shared invocation belongs to
+            # no caller's scope - a caller that is cancelled, or whose scope ends, takes nothing with it
+            async with ctx.scope(f"caller{c}"):
+                got = ("val", await self.fn(*args, **kwargs))
         except asyncio.CancelledError:
             rec.update(pc="done", out="cancelled", got=0)
             return
